@@ -14,6 +14,16 @@ from . import sym as S
 from .spec import Z, P
 
 QTIMEOUT = int(__import__('os').environ.get('VF_QTIMEOUT_MS', '120000'))
+TASK_BUDGET = float(__import__('os').environ.get('VF_TASK_BUDGET_S', '0') or 0)   # 0: per tier default
+_deadline = [None]
+
+
+def _tmo(ms):
+    """solver timeout bounded by what is left of the task budget (>= 0)"""
+    if _deadline[0] is None:
+        return ms
+    left = int((_deadline[0] - time.time()) * 1000)
+    return max(0, min(ms, left))
 
 
 def shape_data(I):
@@ -72,7 +82,9 @@ def analyse(task):
     pc_flag, stab = 'pc' in flags, 'stab' in flags
     res = {'obligations': 0, 'discharged': 0, 'unknown': 0, 'cex': [], 'queries': 0,
            'solver_time': 0.0, 'paths': 0, 'nontrivial': 0, 'controls': {}}
-    E = S.Engine(max_paths=64, timeout=120)
+    budget = TASK_BUDGET or (90.0 if __import__('os').environ.get('VERIF_TIER_EFFECTIVE', 'quick') == 'quick' else 600.0)
+    _deadline[0] = time.time() + budget
+    E = S.Engine(max_paths=512, timeout=120)
     numerics = None
     if task.get('num'):
         numerics = (I.with_numerics(*task['num']), [], [])
@@ -84,7 +96,10 @@ def analyse(task):
 
     def ask(fs, what):
         t0 = time.time()
-        r, m = lp.decide(fs, QTIMEOUT)
+        tm = _tmo(QTIMEOUT)
+        if tm <= 0:
+            return 'unknown', None
+        r, m = lp.decide(fs, tm)
         res['queries'] += 1
         res['solver_time'] += time.time() - t0
         return r, m
@@ -94,7 +109,9 @@ def analyse(task):
         matching xo_ (every 'at most one project per student' assignment: exact, since
         spec-feasibility is among fs)"""
         t0 = time.time()
-        r, m = lp.decide(fs, 2500)
+        if _tmo(2500) <= 0:
+            return 'unknown', None
+        r, m = lp.decide(fs, _tmo(2500))
         res['queries'] += 1
         res['solver_time'] += time.time() - t0
         if r != 'unknown':
@@ -212,7 +229,9 @@ def analyse(task):
                         g.add(f)
                     t0 = time.time()
                     try:
-                        r_ = z3.TryFor(z3.Tactic('qe'), budget_ms)(g)
+                        if _tmo(budget_ms) <= 0:
+                            raise z3.Z3Exception('budget')
+                        r_ = z3.TryFor(z3.Tactic('qe'), _tmo(budget_ms))(g)
                         qe_cache[key] = [sg.as_expr() for sg in r_]
                     except z3.Z3Exception:
                         qe_cache[key] = None
@@ -233,7 +252,9 @@ def analyse(task):
                 else:
                     ch = get_chain(upto, mode)
                 t0 = time.time()
-                r, m = lp.decide(mk(ch), tmo)
+                if _tmo(tmo) <= 0:
+                    return 'unknown', None
+                r, m = lp.decide(mk(ch), _tmo(tmo))
                 res['queries'] += 1
                 res['solver_time'] += time.time() - t0
                 if r != 'unknown':
